@@ -110,7 +110,9 @@ func propC20(c *Ctx) {
 			keyOK := chainIs(chain, fName) && lm.isSourceRefElem(kroot)
 			c.Check("R20.1", fmt.Sprintf("loadTasks/lookup#%d", nLk), lk.Pos(), good && keyOK, "look-up by the source reference's Name; a missing entry is a start-up error, not a silently missing task")
 		})
-		if nLk < 2 {
+		// one look-up may serve both (a map of {config, client} records); where each of the two comes
+		// from is decided below (source-config-from-AllSourcesByName, WithSource)
+		if nLk < 1 {
 			c.Violation("R20.1", "loadTasks/lookups", lt.Pos(), fmt.Sprintf("expected the source-config and the source-client look-ups, found %d", nLk))
 		}
 		// NewTask error
@@ -149,29 +151,26 @@ func propC20(c *Ctx) {
 	{
 		// sc = scByName[scRef.Name] (value of the first lookup); find it through WithSrcName's argument root
 		var scRoot ssa.Value
+		var scPrefix []*types.Var
 		if o := lm.opts["WithSrcName"]; o != nil {
-			scRoot, _ = lm.chain(o.Call.Args[0])
+			r, ch := lm.deep(o.Call.Args[0])
+			if len(ch) >= 1 {
+				scRoot, scPrefix = r, ch[:len(ch)-1]
+			}
 		}
 		fromLookup := false
-		if scRoot != nil {
-			var cv ssa.Value
-			switch a := scRoot.(type) {
-			case *ssa.Alloc:
-				cv = cellValue(a)
-			case *ssa.Extract:
-				cv = a
-			}
-			if cv != nil {
-				{
-					if e, ok := cv.(*ssa.Extract); ok {
-						if lk, ok := e.Tuple.(*ssa.Lookup); ok {
-							if call, k := resultOf(lm.val(lk.X)); call != nil && k == 0 {
-								if f := staticCallee(call); f != nil && f.Name() == "AllSourcesByName" {
-									fromLookup = true
-								}
-							}
-						}
+		if e, ok := scRoot.(*ssa.Extract); ok {
+			if lk, ok := e.Tuple.(*ssa.Lookup); ok {
+				mp := lm.val(lk.X)
+				if call, k := resultOf(mp); call != nil && k == 0 && len(scPrefix) == 0 {
+					if f := staticCallee(call); f != nil && f.Name() == "AllSourcesByName" {
+						fromLookup = true
 					}
+				}
+				// or a map of records built here: every record stored under a source config's Name
+				// carries that very config in the field the settings are read from
+				if mk, ok := mp.(*ssa.MakeMap); ok && len(scPrefix) == 1 {
+					fromLookup = recordsOfAllSources(lm, mk, scPrefix[0], fName)
 				}
 			}
 		}
@@ -184,8 +183,9 @@ func propC20(c *Ctx) {
 			good := o != nil
 			if o != nil {
 				for i, fn := range spec.fields {
-					root, chain := lm.chain(o.Call.Args[i])
-					if !chainIs(chain, w.Field("shovel/config", "Source", fn)) || root != scRoot {
+					root, chain := lm.deep(o.Call.Args[i])
+					want := append(append([]*types.Var{}, scPrefix...), w.Field("shovel/config", "Source", fn))
+					if !chainIs(chain, want...) || root != scRoot {
 						good = false
 					}
 				}
@@ -199,7 +199,9 @@ func propC20(c *Ctx) {
 		// the source client is the one registered under the same name
 		if o := lm.opts["WithSource"]; o != nil {
 			good := false
-			if e, ok := lm.val(o.Call.Args[0]).(*ssa.Extract); ok {
+			// the client is the looked-up value, or a field of it (one map of {config, client} records)
+			droot, _ := lm.deep(lm.val(o.Call.Args[0]))
+			if e, ok := droot.(*ssa.Extract); ok {
 				if lk, ok := e.Tuple.(*ssa.Lookup); ok {
 					root, chain := lm.chain(lk.Index)
 					good = chainIs(chain, fName) && lm.isSourceRefElem(root)
@@ -248,6 +250,21 @@ func propC20(c *Ctx) {
 				fileStore = mu
 			}
 		})
+		// the rule reads one algorithm: a merge map keyed by name, written by both inputs.  A function
+		// that stores no collection element into any map merges some other way (a helper shared by both
+		// merges, an ordered de-duplication): which entry wins there is not decided by this rule.
+		anyElemStore := false
+		allInstrs(fn, func(in ssa.Instruction) {
+			if mu, ok := in.(*ssa.MapUpdate); ok {
+				if _, _, isElem := elemOf(mu.Value); isElem {
+					anyElemStore = true
+				}
+			}
+		})
+		if !anyElemStore {
+			c.OK("R20.2", fnName(fn)+"/file-after-db", fn.Pos(), "no collection element is stored into a map in this function: the merge is not done by the algorithm this rule reads; not decided")
+			continue
+		}
 		good := dbStore != nil && fileStore != nil
 		detail := "both stores found"
 		if good {
@@ -430,22 +447,23 @@ func propC20(c *Ctx) {
 		c.Violation("R20.3", "Run/runner", run.Pos(), "Run starts no runner goroutine")
 	}
 	rs := w.Fn("shovel", "(*Manager).Restart")
+	sreg := NewRegion(rs) // closing and replacing the channel may live in a helper (nextGeneration)
 	var closeCall, goRun ssa.Instruction
 	var ecArg ssa.Value
-	allInstrs(rs, func(in ssa.Instruction) {
+	sreg.AllInstrs(func(in ssa.Instruction) {
 		switch x := in.(type) {
 		case *ssa.Call:
 			if b, ok := x.Call.Value.(*ssa.Builtin); ok && b.Name() == "close" && isLoadOfField(x.Call.Args[0], fRestart) {
 				closeCall = x
 			}
 		case *ssa.Go:
-			if staticCallee(x) == run {
+			if staticCallee(x) == run && x.Parent() == rs {
 				goRun = x
 				ecArg = x.Call.Args[1]
 			}
 		}
 	})
-	okRestart := closeCall != nil && goRun != nil && dominatesInstr(closeCall, goRun)
+	okRestart := closeCall != nil && goRun != nil && sreg.Dominates(closeCall, goRun)
 	okRet := false
 	for _, r := range returnsOf(rs) {
 		if u, ok := returnValues(r)[0].(*ssa.UnOp); ok && u.Op == token.ARROW && u.X == ecArg {
@@ -457,24 +475,42 @@ func propC20(c *Ctx) {
 	// the generation being started gets a fresh channel, installed as the
 	// current one after the old one was closed
 	{
+		// the stores to Manager.restart in Restart's region
+		var stores []*ssa.Store
+		sreg.AllInstrs(func(in ssa.Instruction) {
+			if st, ok := in.(*ssa.Store); ok {
+				if f, _ := fieldOf(st.Addr); f == fRestart {
+					stores = append(stores, st)
+				}
+			}
+		})
+		// what the generation is started with: a channel made here, possibly read back from the field
+		// it was just stored into (`tm.restart = make(…); return tm.restart`, one store, lock held)
 		var fresh ssa.Value
+		var installedBy *ssa.Store
 		if g, ok := goRun.(*ssa.Go); ok && len(g.Call.Args) == 3 {
-			if mk, ok := g.Call.Args[2].(*ssa.MakeChan); ok {
-				fresh = mk
+			lv := sreg.Leaves(g.Call.Args[2])
+			if len(lv) == 1 {
+				switch x := lv[0].(type) {
+				case *ssa.MakeChan:
+					fresh = x
+				case *ssa.UnOp:
+					if isLoadOfField(x, fRestart) && len(stores) == 1 && stores[0].Parent() == x.Parent() && dominatesInstr(stores[0], x) {
+						if mk, ok := stores[0].Val.(*ssa.MakeChan); ok && sameBase(stores[0].Addr, x.X) {
+							fresh = mk
+						}
+					}
+				}
 			}
 		}
 		installed := false
-		if fresh != nil {
-			allInstrs(rs, func(in ssa.Instruction) {
-				st, ok := in.(*ssa.Store)
-				if !ok || st.Val != fresh {
-					return
-				}
-				if f, _ := fieldOf(st.Addr); f == fRestart && closeCall != nil && dominatesInstr(closeCall, st) && dominatesInstr(st, goRun) {
-					installed = true
-				}
-			})
+		for _, st := range stores {
+			if fresh != nil && st.Val == fresh && closeCall != nil && sreg.Dominates(closeCall, st) && sreg.Dominates(st, goRun) {
+				installed = true
+				installedBy = st
+			}
 		}
+		_ = installedBy
 		// no other store to the field in Restart
 		nStores := 0
 		for _, fn := range w.RepoFuncs() {
@@ -492,13 +528,21 @@ func propC20(c *Ctx) {
 	// Run = run(ec, current channel)
 	{
 		good := false
+		ereg := NewRegion(runExported)
 		for _, call := range callsToFn(runExported, run) {
 			args := call.Call.Args
 			if len(args) != 3 {
 				continue
 			}
 			p, isParam := args[1].(*ssa.Parameter)
-			if isParam && p.Parent() == runExported && isLoadOfField(args[2], fRestart) {
+			cur := true
+			lv := ereg.Leaves(args[2])
+			for _, l := range lv {
+				if !isLoadOfField(l, fRestart) {
+					cur = false
+				}
+			}
+			if isParam && p.Parent() == runExported && cur && len(lv) > 0 {
 				good = true
 			}
 		}
@@ -536,36 +580,96 @@ func propC20(c *Ctx) {
 	conv := w.Fn("shovel", "(*Task).Converge")
 	okSel := false
 	detail := "select on the stop channel parameter precedes every Converge"
-	allInstrs(runTask, func(in ssa.Instruction) {
-		sel, ok := in.(*ssa.Select)
-		if !ok {
-			return
-		}
-		idxRestart := -1
-		for i, st := range sel.States {
-			if p, ok := accessPath(st.Chan).Root.(*ssa.Parameter); ok && st.Dir == types.RecvOnly && p.Parent() == runTask && paramIndex(p) == 2 {
-				idxRestart = i
+	// a poll is a select with a receive on the stop channel, in runTask itself or in a boolean
+	// helper it hands the channel to (`for !stopRequested(restart)`); its stop edges are the
+	// edges on which the receive was the case taken
+	type poll struct {
+		at   ssa.Instruction
+		stop []Edge
+	}
+	selectStop := func(fn *ssa.Function, isChan func(ssa.Value) bool) (sel *ssa.Select, taken, other []Edge) {
+		allInstrs(fn, func(in ssa.Instruction) {
+			sl, ok := in.(*ssa.Select)
+			if !ok || sel != nil {
+				return
 			}
-		}
-		if idxRestart < 0 {
-			return
-		}
-		// index extract
-		var idxV ssa.Value
-		for _, ref := range *sel.Referrers() {
-			if e, ok := ref.(*ssa.Extract); ok && e.Index == 0 {
-				idxV = e
+			idx := -1
+			for i, st := range sl.States {
+				if st.Dir == types.RecvOnly && isChan(st.Chan) {
+					idx = i
+				}
 			}
-		}
-		if idxV == nil {
-			return
-		}
-		taken, _ := cmpEdges(runTask, func(b *ssa.BinOp) bool {
-			n, ok := constInt(b.Y)
-			return b.Op == token.EQL && b.X == idxV && ok && int(n) == idxRestart
+			if idx < 0 {
+				return
+			}
+			var idxV ssa.Value
+			for _, ref := range *sl.Referrers() {
+				if e, ok := ref.(*ssa.Extract); ok && e.Index == 0 {
+					idxV = e
+				}
+			}
+			if idxV == nil {
+				return
+			}
+			t, f := cmpEdges(fn, func(b *ssa.BinOp) bool {
+				n, ok := constInt(b.Y)
+				return b.Op == token.EQL && b.X == idxV && ok && int(n) == idx
+			})
+			if len(t) > 0 {
+				sel, taken, other = sl, t, f
+			}
 		})
-		good := len(taken) > 0
-		for _, e := range taken {
+		return
+	}
+	var polls []poll
+	if sel, taken, _ := selectStop(runTask, func(v ssa.Value) bool {
+		p, ok := accessPath(v).Root.(*ssa.Parameter)
+		return ok && p.Parent() == runTask && paramIndex(p) == 2
+	}); sel != nil {
+		polls = append(polls, poll{sel, taken})
+	}
+	for _, ci := range callsIn(runTask) {
+		call, ok := ci.(*ssa.Call)
+		h := staticCallee(ci)
+		if !ok || h == nil || !isRepoFunc(h) || h == conv || !isBoolType(call.Type()) {
+			continue
+		}
+		pi := -1
+		for i, a := range call.Call.Args {
+			if p, ok := accessPath(a).Root.(*ssa.Parameter); ok && p.Parent() == runTask && paramIndex(p) == 2 {
+				pi = i
+			}
+		}
+		if pi < 0 || pi >= len(h.Params) {
+			continue
+		}
+		hp := h.Params[pi]
+		sel, taken, _ := selectStop(h, func(v ssa.Value) bool { return accessPath(v).Root == ssa.Value(hp) })
+		if sel == nil {
+			continue
+		}
+		// the helper answers true exactly when the receive was taken
+		exact := true
+		for _, r := range returnsOf(h) {
+			k, isConst := returnValues(r)[0].(*ssa.Const)
+			if !isConst || k.Value == nil {
+				exact = false
+				continue
+			}
+			onStop := guardedByEdges(h, r, taken)
+			if (k.Value.String() == "true") != onStop {
+				exact = false
+			}
+		}
+		if !exact {
+			continue
+		}
+		t, _ := boolEdges(call)
+		polls = append(polls, poll{call, t})
+	}
+	for _, p := range polls {
+		good := len(p.stop) > 0
+		for _, e := range p.stop {
 			r, _ := reach(Site{e.To, -1}, func(x ssa.Instruction) bool {
 				call, ok := x.(*ssa.Call)
 				return ok && staticCallee(call) == conv
@@ -576,12 +680,12 @@ func propC20(c *Ctx) {
 			}
 		}
 		for _, cc := range callsToFn(runTask, conv) {
-			if !dominatesInstr(sel, cc) {
+			if !dominatesInstr(p.at, cc) {
 				good = false
 				detail = "Converge can run without polling the stop channel first"
 			}
-			// and between two Converge calls the select is passed again
-			r, _ := reach(siteOf(cc), isInstr(cc), newCuts().addInstr(sel))
+			// and between two Converge calls the poll is passed again
+			r, _ := reach(siteOf(cc), isInstr(cc), newCuts().addInstr(p.at))
 			if r {
 				good = false
 				detail = "a second Converge can run without polling the stop channel again"
@@ -590,7 +694,7 @@ func propC20(c *Ctx) {
 		if good {
 			okSel = true
 		}
-	})
+	}
 	c.Check("R20.4", "runTask/stop-before-converge", runTask.Pos(), okSel, detail)
 
 	// ---- R20.5 ----------------------------------------------------------
@@ -622,4 +726,112 @@ func propC20(c *Ctx) {
 	}
 	_ = res
 	_ = strings.Join
+}
+
+// sameBase: two field addresses select a field of the same object (same root and path)
+func sameBase(a, b ssa.Value) bool {
+	fa, ok1 := a.(*ssa.FieldAddr)
+	fb, ok2 := b.(*ssa.FieldAddr)
+	if !ok1 || !ok2 || fa.Field != fb.Field {
+		return false
+	}
+	ka, kb := accessPath(fa.X), accessPath(fb.X)
+	return ka.Root == kb.Root && ka.Path == kb.Path
+}
+
+func isBoolType(t types.Type) bool {
+	b, ok := t.Underlying().(*types.Basic)
+	return ok && b.Info()&types.IsBoolean != 0
+}
+
+// deep: a field chain followed through single-assignment locals.  `found, ok := m[k]; sc := found.conf;
+// use(sc.Name)` has root = the look-up's value and chain [conf, Name].
+func (m *loadTasksModel) deep(v ssa.Value) (ssa.Value, []*types.Var) {
+	root, ch := m.chain(v)
+	for i := 0; i < 6; i++ {
+		al, ok := root.(*ssa.Alloc)
+		if !ok {
+			break
+		}
+		cv := cellValue(al)
+		if cv == nil {
+			break
+		}
+		if _, isParam := cv.(*ssa.Parameter); isParam {
+			break
+		}
+		r2, ch2 := m.chain(cv)
+		if r2 == root {
+			break
+		}
+		root, ch = r2, append(append([]*types.Var{}, ch2...), ch...)
+	}
+	return root, ch
+}
+
+// recordsOfAllSources: mk is a local map; every store into it puts, under the key elem.Name, a
+// record whose field fld is elem itself, elem ranging over the result of AllSourcesByName().
+func recordsOfAllSources(lm *loadTasksModel, mk *ssa.MakeMap, fld, fName *types.Var) bool {
+	n := 0
+	good := true
+	lm.reg.AllInstrs(func(in ssa.Instruction) {
+		mu, ok := in.(*ssa.MapUpdate)
+		if !ok || lm.val(mu.Map) != ssa.Value(mk) {
+			return
+		}
+		n++
+		isElem := func(v ssa.Value) bool {
+			// range value of AllSourcesByName()'s map, or element of a slice of its values
+			if e, ok := v.(*ssa.Extract); ok {
+				if nx, ok := e.Tuple.(*ssa.Next); ok && e.Index == 2 {
+					if rg, ok := nx.Iter.(*ssa.Range); ok {
+						if call, k := resultOf(lm.val(rg.X)); call != nil && k == 0 {
+							if f := staticCallee(call); f != nil && f.Name() == "AllSourcesByName" {
+								return true
+							}
+						}
+					}
+				}
+			}
+			return false
+		}
+		kroot, kch := lm.deep(mu.Key)
+		if !chainIs(kch, fName) || !isElem(kroot) {
+			good = false
+			return
+		}
+		// the record: a local composite whose field fld was last set to the element
+		ld, ok := mu.Value.(*ssa.UnOp)
+		if !ok {
+			good = false
+			return
+		}
+		al, ok := ld.X.(*ssa.Alloc)
+		if !ok {
+			good = false
+			return
+		}
+		idx := -1
+		if st, ok := al.Type().Underlying().(*types.Pointer).Elem().Underlying().(*types.Struct); ok {
+			for i := 0; i < st.NumFields(); i++ {
+				if st.Field(i) == fld {
+					idx = i
+				}
+			}
+		}
+		if idx < 0 {
+			good = false
+			return
+		}
+		d := newMemField(al, idx).At(ld)
+		if d == nil || d.store == nil || d.whole {
+			good = false
+			return
+		}
+		vroot, vch := lm.deep(d.store.(*ssa.Store).Val)
+		if len(vch) != 0 || vroot != kroot {
+			good = false
+		}
+	})
+	return good && n > 0
 }
